@@ -17,6 +17,8 @@ type Net struct {
 	Name   string
 	Family string
 	N      *consensus.Network
+	// SFParts, when set, replaces the genesis siafund allocation (1+999+1000+3000+5000 = 10000).
+	SFParts []uint64
 }
 
 var genesisTime = time.Unix(1700000000, 0).UTC()
